@@ -375,7 +375,7 @@ def run(rep, repo, tier):
     rep.assumptions += ['the bit loops have a fixed trip count that LLVM unrolls completely (otherwise analysis-broken)',
                         'data points to at least length bytes']
     src = repo + '/igris/util/crc.c'
-    mod = compile_ir(src, repo, passes=UNROLL_PASSES, opt_args=UNROLL_ARGS)
+    mod = compile_ir(src, repo, passes=UNROLL_PASSES, opt_args=UNROLL_ARGS, inline=True)
     rep.units.append('igris/util/crc.c (unrolled)')
     for fname, width, poly, refl, seed, note, sb, shift in (
             ('igris_crc8', 8, 0x8C, True, 'crc_init', 'Dallas/Maxim', None, 0),
